@@ -372,6 +372,8 @@ fn determinism(props: &[String], runs: u64) -> i32 {
     for p in props {
         let mut base: Option<Vec<(u64, u64)>> = None;
         for (w, rep_i) in [(1u64, 0), (4, 0), (16, 0), (16, 1)] {
+            // a C08 run enumerates every offset of a file (~0.2 s): fewer of them
+            let runs = if p == "C08" { (runs / 8).max(40) } else { runs };
             let plan = Plan { prop: p.clone(), seed, runs, workers: w, thorough: false, digests: true };
             let m = spawn_workers(&plan);
             if !m.harness_errors.is_empty() {
